@@ -27,7 +27,7 @@ SASS_AT = {"mixin", "include", "function", "return", "if", "else", "each", "for"
 
 
 def plan(tier):
-    return {"budget_s": 60 if tier == "quick" else 480, "profiles": ["R"], "min_evaluations": 2000}
+    return {"budget_s": 60 if tier == "quick" else 480, "profiles": ["R"], "min_evaluations": 1000}
 
 
 def exclusions():
